@@ -133,3 +133,18 @@ Theorem tie_exec_select_forced s order table :
   GenSched.sched_exec_select (py_of_sched s order) (s_now s) (prio_fn_of s table) true =
   Ok (map (objof s) order, dt_now (s_now s) (s_tz s)).
 Proof. reflexivity. Qed.
+
+(* C05 on the generated code: the batch handed to the workers is exactly the list `chosen` of SelectProofs.v - for
+   which C05_count, C05_top_k, C05_positive_only and C05_order are proved - computed from the priorities the
+   collection loop obtained *)
+From Sv Require Import SelectProofs.
+Theorem gen_batch_is_chosen s order table prs evs :
+  NoDup order -> Forall (has_job s) order ->
+  collect_prios s table order (dt_now (s_now s) (s_tz s)) (Z.of_nat (length order)) = Ok (prs, evs) ->
+  GenSched.sched_exec_select (py_of_sched s order) (s_now s) (prio_fn_of s table) false =
+    Ok (map (objof s) (map fst (chosen (s_max_exec s) prs)), dt_now (s_now s) (s_tz s)).
+Proof.
+  intros Hnd Hj Hc. rewrite (tie_exec_select s order table Hnd Hj), Hc, select_batch_chosen. reflexivity.
+Qed.
+Print Assumptions gen_batch_is_chosen.
+Print Assumptions tie_exec_select.
